@@ -82,7 +82,7 @@ struct FifoSpec {
             if ( o.res ) { if ( cap >= 0 && long( q.size()) >= cap ) return false; q.push_back( o.arg ); return true; }
             return cap >= 0 && long( q.size()) >= cap;
         case DEQ: case POP_F: case POP_FRONT:
-            if ( o.res ) { if ( q.empty() || q.front() != o.res2 ) return false; q.pop_front(); return true; }
+            if ( o.res ) { if ( q.empty() || ( q.front() != o.res2 && !( o.op == POP_FRONT && o.res2 == -1 ))) return false; q.pop_front(); return true; }
             return q.empty();
         case FRONT:
             if ( o.res ) return !q.empty() && q.front() == o.res2;
